@@ -304,6 +304,18 @@ LiveMuts(b) == {m \in FieldMuts(b, FALSE) : m.off < b.hs \/ (BodyToo(b) /\ m.mk 
 LiveCuts(b) == {b.fields[i].off : i \in {j \in 1 .. Len(b.fields) : BodyToo(b) \/ j % 8 = 0}} \cap (b.hs .. Len(b.bytes) - 1)
 MutName(m) == "MUT_" \o m.mk \o "_" \o m.f \o "_" \o ToString(m.val)
 
+\* the PREPARED answer's bind-marker metadata as a product: flags (global table spec / no_metadata) x announced column count x
+\* partition-key indexes (none, the first, the last, both, one past the count).  With no_metadata the count is announced and no
+\* marker is described.  These answer the PREPAREs (positions whose request is PREPARE).
+PkChoices(k) == {<<>>, <<0>>, <<k - 1>>, <<0, k - 1>>, <<k>>}
+PrepProduct ==
+  {[k |-> k, nometa |-> nm, global |-> g, pk |-> pk] : k \in 1 .. 3, nm \in BOOLEAN, g \in BOOLEAN, pk \in PkChoices(3)} 
+PrepProductOK(x) == x.pk \in PkChoices(x.k) /\ (x.nometa => ~x.global)
+PrepOf(x) == [Prepared(1) EXCEPT !.req = MkMeta([i \in 1 .. x.k |-> TInt], x.global, FALSE, x.nometa), !.pk = x.pk]
+RECURSIVE PkName(_)
+PkName(pk) == IF Len(pk) = 0 THEN "" ELSE "_" \o ToString(pk[1]) \o PkName(Tail(pk))
+PrepName(x) == "PREPARED_" \o ToString(x.k) \o "COL" \o (IF x.nometa THEN "_NOMETA" ELSE "") \o (IF x.global THEN "_GLOBAL" ELSE "") \o "_PK" \o PkName(x.pk)
+
 Kinds == {WellFormedVariants[i].kind : i \in 1 .. Len(WellFormedVariants)}
 
 \* ------------------------------------------------------------------ states
@@ -324,6 +336,9 @@ PNext ==
      \/ /\ p.pos # "idle" /\ p.pos \notin Passage /\ Wanted(p.cfg, p.pos)       \* the node answers with any kind
         /\ \/ \E i \in 1 .. Len(WellFormedVariants) :
                 p' = CaseOf(p, WellFormedVariants[i].n, WellFormedVariants[i].kind, WellFormedVariants[i].bytes)
+           \/ \E x \in PrepProduct :
+                /\ p.req = "PREPARE" /\ PrepProductOK(x)
+                /\ p' = CaseOf(p, PrepName(x), "RESULT_PREPARED", Mk("RESULT_PREPARED", PrepOf(x)))
            \/ \E i \in 1 .. Len(Malformed) :
                 p.pos \in Malformed[i].at /\ p' = CaseOf(p, Malformed[i].n, Malformed[i].kind, Malformed[i].bytes)
            \/ \E i \in 1 .. Len(SysCols), k \in 1 .. Len(SysAlterations) :
